@@ -749,7 +749,15 @@ func codecMonitor(r *Rng, n int, report func(reg.Violation)) {
 		// protobuf: an appended unknown field must be rejected
 		noPanic(report, "ics20/proto-unknown", ftpdOut(&d), func() {
 			bz, _ := transfertypes.MarshalPacketData(d, transfertypes.V1, transfertypes.EncodingProtobuf)
+			// any field number: low ones and the "non-critical" ranges (bit 11 set: 1024-2047, 3072-4095, ...),
+			// which the SDK's tx decoder tolerates but packet data decoding must not
 			num := uint64(6 + r.Intn(1000))
+			switch r.Intn(4) {
+			case 0:
+				num = []uint64{1024, 1025, 1500, 2047, 2048, 3072, 4095, 1 << 20, 1<<20 | 1<<10, 1<<29 - 1}[r.Intn(10)]
+			case 1:
+				num = uint64(1024 + r.Intn(1024) + 2048*r.Intn(8))
+			}
 			ext := appendVarint(append([]byte{}, bz...), num<<3|2)
 			ext = append(appendVarint(ext, 3), 'a', 'b', 'c')
 			if _, err := transfertypes.UnmarshalPacketData(ext, transfertypes.V1, transfertypes.EncodingProtobuf); err == nil {
@@ -802,7 +810,11 @@ func codecMonitor(r *Rng, n int, report func(reg.Violation)) {
 		// protobuf unknown field for GMP
 		noPanic(report, "gmp/proto-unknown", gmpOut(&g), func() {
 			bz, _ := gmptypes.MarshalPacketData(&g, gmptypes.Version, gmptypes.EncodingProtobuf)
-			ext := append(appendVarint(appendVarint(append([]byte{}, bz...), uint64(6+r.Intn(100))<<3|2), 1), 'x')
+			gnum := uint64(6 + r.Intn(100))
+			if r.Intn(3) == 0 {
+				gnum = uint64(1024 + r.Intn(1024) + 2048*r.Intn(8)) // "non-critical" range (bit 11 set)
+			}
+			ext := append(appendVarint(appendVarint(append([]byte{}, bz...), gnum<<3|2), 1), 'x')
 			if _, err := gmptypes.UnmarshalPacketData(ext, gmptypes.Version, gmptypes.EncodingProtobuf); err == nil {
 				report(reg.Violation{Property: "C35", Key: "proto-unknown-field-accepted/gmp", What: "protobuf decoding accepted an unknown field", Input: Hex(ext), Observed: "ok"})
 			}
